@@ -901,6 +901,100 @@ func (c *Ctx) byteTableOf(info *types.Info, x ast.Expr, depth int) (set [256]boo
 	return set, false
 }
 
+// evalBody interprets the body of a byte predicate for the current value: return statements, if / else,
+// and switch statements (tagged by the byte or tagless) without fallthrough. ok is false for anything else.
+func (e *byteEval) evalBody(list []ast.Stmt) (val constant.Value, returned bool, ok bool) {
+	for _, st := range list {
+		switch x := st.(type) {
+		case *ast.ReturnStmt:
+			if len(x.Results) != 1 {
+				return nil, false, false
+			}
+			v, good := e.eval(x.Results[0])
+			return v, true, good
+		case *ast.IfStmt:
+			if x.Init != nil {
+				return nil, false, false
+			}
+			cv, good := e.eval(x.Cond)
+			if !good || cv.Kind() != constant.Bool {
+				return nil, false, false
+			}
+			var branch []ast.Stmt
+			if constant.BoolVal(cv) {
+				branch = x.Body.List
+			} else if eb, isBlk := x.Else.(*ast.BlockStmt); isBlk {
+				branch = eb.List
+			} else if ei, isIf := x.Else.(*ast.IfStmt); isIf {
+				branch = []ast.Stmt{ei}
+			}
+			if v, ret, good := e.evalBody(branch); !good {
+				return nil, false, false
+			} else if ret {
+				return v, true, true
+			}
+		case *ast.SwitchStmt:
+			if x.Init != nil {
+				return nil, false, false
+			}
+			var tag constant.Value
+			if x.Tag != nil {
+				tv, good := e.eval(x.Tag)
+				if !good {
+					return nil, false, false
+				}
+				tag = tv
+			}
+			var chosen, deflt *ast.CaseClause
+			for _, cc := range x.Body.List {
+				cl := cc.(*ast.CaseClause)
+				if cl.List == nil {
+					deflt = cl
+					continue
+				}
+				for _, ce := range cl.List {
+					cv, good := e.eval(ce)
+					if !good {
+						return nil, false, false
+					}
+					hit := false
+					if tag != nil {
+						if isNumKind(cv) && isNumKind(tag) {
+							hit = constant.Compare(constant.ToInt(cv), token.EQL, constant.ToInt(tag))
+						}
+					} else if cv.Kind() == constant.Bool {
+						hit = constant.BoolVal(cv)
+					}
+					if hit && chosen == nil {
+						chosen = cl
+					}
+				}
+				if chosen != nil {
+					break
+				}
+			}
+			if chosen == nil {
+				chosen = deflt
+			}
+			if chosen != nil {
+				for _, b := range chosen.Body {
+					if br, isBr := b.(*ast.BranchStmt); isBr && br.Tok == token.FALLTHROUGH {
+						return nil, false, false
+					}
+				}
+				if v, ret, good := e.evalBody(chosen.Body); !good {
+					return nil, false, false
+				} else if ret {
+					return v, true, true
+				}
+			}
+		default:
+			return nil, false, false
+		}
+	}
+	return nil, false, true
+}
+
 func (e *byteEval) eval(x ast.Expr) (constant.Value, bool) {
 	x = unparen(x)
 	if e.isVar(x) {
@@ -991,8 +1085,8 @@ func (e *byteEval) eval(x ast.Expr) (constant.Value, bool) {
 		// a one-line predicate of the module — func (set *T) contains(b byte) bool { return set[b] },
 		// func isX(b byte) bool { return … } — is inlined with its argument's value
 		if e.c != nil && e.c.isOurs(f.Pkg().Path()) && len(x.Args) == 1 && e.depth < 3 {
-			if fd := e.c.funcDecl(f); fd != nil && fd.Body != nil && len(fd.Body.List) == 1 {
-				if r, ok := fd.Body.List[0].(*ast.ReturnStmt); ok && len(r.Results) == 1 {
+			if fd := e.c.funcDecl(f); fd != nil && fd.Body != nil && len(fd.Body.List) >= 1 {
+				if r, ok := fd.Body.List[len(fd.Body.List)-1].(*ast.ReturnStmt); ok && len(r.Results) == 1 {
 					av, ok := e.eval(x.Args[0])
 					sig := f.Type().(*types.Signature)
 					if ok && isNumKind(av) && sig.Params().Len() == 1 {
@@ -1010,7 +1104,11 @@ func (e *byteEval) eval(x ast.Expr) (constant.Value, bool) {
 								}
 							}
 						}
-						if v, ok := child.eval(r.Results[0]); ok {
+						if len(fd.Body.List) == 1 {
+							if v, ok := child.eval(r.Results[0]); ok {
+								return v, true
+							}
+						} else if v, ret, ok := child.evalBody(fd.Body.List); ok && ret {
 							return v, true
 						}
 					}
@@ -1108,7 +1206,19 @@ func (c *Ctx) predicateAccepts(info *types.Info, typ *ast.FuncType, body *ast.Bl
 				})
 			}
 		}
-		return set, false
+		// a predicate written with a switch / if chain: interpreted for each of the 256 values
+		for v := 0; v < 256; v++ {
+			ev := &byteEval{info: info, c: c, val: int64(v), isVar: func(e ast.Expr) bool {
+				id, isID := e.(*ast.Ident)
+				return isID && info.ObjectOf(id) == pobj
+			}}
+			r, ret, good := ev.evalBody(body.List)
+			if !good || !ret || r == nil || r.Kind() != constant.Bool {
+				return set, false
+			}
+			set[v] = constant.BoolVal(r)
+		}
+		return set, true
 	}
 	if b, isB := pobj.Type().Underlying().(*types.Basic); !isB || b.Kind() != types.String {
 		if _, isSl := pobj.Type().Underlying().(*types.Slice); !isSl {
@@ -1443,6 +1553,42 @@ func ruleENCSET(c *Ctx) []Obligation {
 						o.Detail = "EscapeIdent's own output buffer; its verbatim-copy class is checked above"
 						obs = append(obs, o)
 						continue
+					}
+					// a string field of the receiver of a descriptor method (c.prefix, c.suffix): every literal of
+					// that struct type in the package gives the field a constant without quote or backslash
+					if fse, ok := inner.(*ast.SelectorExpr); ok && fd.Recv != nil && len(fd.Recv.List) == 1 && len(fd.Recv.List[0].Names) == 1 {
+						if rid, ok := unparen(fse.X).(*ast.Ident); ok && info.ObjectOf(rid) == info.Defs[fd.Recv.List[0].Names[0]] {
+							fobj := info.ObjectOf(fse.Sel)
+							clean, lits := true, 0
+							for _, f := range p.Syntax {
+								ast.Inspect(f, func(m ast.Node) bool {
+									cl, ok := m.(*ast.CompositeLit)
+									if !ok || namedOf(info.TypeOf(cl)) == nil || namedOf(info.TypeOf(cl)) != namedOf(info.TypeOf(rid)) {
+										return true
+									}
+									lits++
+									for _, el := range cl.Elts {
+										kv, ok := el.(*ast.KeyValueExpr)
+										if !ok {
+											clean = false
+											continue
+										}
+										if kid, ok := kv.Key.(*ast.Ident); ok && info.ObjectOf(kid) == fobj {
+											tv := info.Types[kv.Value]
+											if tv.Value == nil || tv.Value.Kind() != constant.String || strings.ContainsAny(constant.StringVal(tv.Value), "\"\\") {
+												clean = false
+											}
+										}
+									}
+									return true
+								})
+							}
+							if clean && lits > 0 {
+								o.Detail = fmt.Sprintf("operand is a sigil field of the encoder's descriptor: a constant without quote or backslash in all %d literals of the type", lits)
+								obs = append(obs, o)
+								continue
+							}
+						}
 					}
 					// guarded by a predicate on the same variable?
 					id, isID := inner.(*ast.Ident)
